@@ -57,6 +57,9 @@ type ctrlOp struct {
 type ctrlCase struct {
 	Cluster vw.ClusterSpec `json:"cluster"`
 	Ops     []ctrlOp       `json:"ops"`
+	// IPModeDefault: the API server fills in status.loadBalancer.ingress[].ipMode = "VIP" for entries with an IP that
+	// were written without one (what kube-apiserver does since the LoadBalancerIPMode feature is on by default, 1.30)
+	IPModeDefault bool `json:"ipmode_default,omitempty"`
 }
 
 type ctrlGenOpts struct {
@@ -142,7 +145,7 @@ func genPerm(rt *rapid.T, n int, label string) []int {
 }
 
 func genCtrlCase(rt *rapid.T, o ctrlGenOpts) ctrlCase {
-	c := ctrlCase{Cluster: vw.GenCluster(rt, ctrlClusterOpts)}
+	c := ctrlCase{Cluster: vw.GenCluster(rt, ctrlClusterOpts), IPModeDefault: rapid.IntRange(0, 2).Draw(rt, "ipModeDefault") == 0}
 	cur := c.Cluster
 	var live []vw.SvcSpec
 	next := 0
@@ -168,6 +171,9 @@ func genCtrlCase(rt *rapid.T, o ctrlGenOpts) ctrlCase {
 					s.Families, s.Policy = append([]int(nil), b.Families...), b.Policy
 					s.LBIP, s.LBIPs, s.Pool = "", "", ""
 					s.Ports = vw.OtherPorts(b.Ports)
+					if rapid.IntRange(0, 3).Draw(rt, "rival") == 0 {
+						s.Ports = append([]vw.PortSpec(nil), b.Ports[:1]...) // a rival: fits the address but for one port
+					}
 				}
 			}
 			next++
@@ -308,11 +314,12 @@ type sim struct {
 	pendingBefore bool
 	sinceRestart  map[string]bool         // services written / made inadmissible since the restart
 	recR          map[string][]netip.Addr // during a restart: the statuses at the crash
-	cfgGen        int                     // number of configurations the controller accepted so far
-	howGotGen     map[string]int          // cfgGen at the time howGot was recorded
-	howGot        map[string]string       // how each service came to its current addresses (Allocate | AllocateFromPool | Assign | AddFamily)
-	blame         map[string]bool         // during a restart: victim -> whoever held its recorded address when the victim's handler ran had a record itself
-	thefts        map[string]bool         // during a restart: victim -> the service that took its recorded address had a record itself
+	ipModeDefault bool
+	cfgGen        int               // number of configurations the controller accepted so far
+	howGotGen     map[string]int    // cfgGen at the time howGot was recorded
+	howGot        map[string]string // how each service came to its current addresses (Allocate | AllocateFromPool | Assign | AddFamily)
+	blame         map[string]bool   // during a restart: victim -> whoever held its recorded address when the victim's handler ran had a record itself
+	thefts        map[string]bool   // during a restart: victim -> the service that took its recorded address had a record itself
 }
 
 func (s *sim) setViol(v *vw.Violation) {
@@ -365,7 +372,16 @@ func (f *fakeK8s) UpdateStatus(svc *v1.Service) error {
 	if obj == nil {
 		return errors.New("verif: service not found") // deleted meanwhile: the API server answers NotFound
 	}
+	before := obj.DeepCopy()
 	obj.Status = *svc.Status.DeepCopy()
+	if s.ipModeDefault && obj.Spec.Type == v1.ServiceTypeLoadBalancer {
+		for i := range obj.Status.LoadBalancer.Ingress {
+			if ing := &obj.Status.LoadBalancer.Ingress[i]; ing.IP != "" && ing.IPMode == nil {
+				vip := v1.LoadBalancerIPModeVIP
+				ing.IPMode = &vip
+			}
+		}
+	}
 	if svc.Annotations == nil {
 		obj.Annotations = nil
 	} else {
@@ -375,13 +391,27 @@ func (f *fakeK8s) UpdateStatus(svc *v1.Service) error {
 		}
 	}
 	s.writes[key]++
-	s.enqueue(key)
+	if !reflect.DeepEqual(before.Status, obj.Status) || !sameAnn(before.Annotations, obj.Annotations) {
+		s.enqueue(key) // an update that leaves the stored object as it was produces no watch event
+	}
 	if s.crash == "after-write" {
 		s.crash = ""
 		s.tr.Class("crash-after-write")
 		panic(crashSentinel{})
 	}
 	return nil
+}
+
+func sameAnn(a, b map[string]string) bool {
+	if len(a) != len(b) {
+		return false
+	}
+	for k, v := range a {
+		if w, ok := b[k]; !ok || w != v {
+			return false
+		}
+	}
+	return true
 }
 
 func addrsOf(ss []string) []netip.Addr {
@@ -1309,6 +1339,10 @@ func (s *sim) restartJudge() {
 
 func runCtrl(c ctrlCase, tr *vw.Trace, j judgeSet) *vw.Violation {
 	s := newSim(c.Cluster, tr, j)
+	s.ipModeDefault = c.IPModeDefault
+	if c.IPModeDefault {
+		tr.Class("api-server-defaults-ipmode")
+	}
 	quiesce := func(label string) bool {
 		if !s.settle() {
 			return false
